@@ -245,16 +245,25 @@ def HighestOf {τ : Type} (f : τ → X Rat) (seen : List τ) : Option (τ × X 
   | none => ∀ t ∈ seen, X.lt (.fin 0) (f t) = false
   | some (t, d) => t ∈ seen ∧ d = f t ∧ X.lt (.fin 0) d = true ∧ ∀ t' ∈ seen, X.lt d (f t') = false
 
+/-- a positive degree other than `+inf` is stored as it is -/
+theorem nanToNum01_of_pos (d : X Rat) (hpos : X.lt (.fin 0) d = true) (hinf : d ≠ .pinf) : X.nanToNum01 d = d := by
+  cases d with
+  | nan => cases hpos
+  | ninf => cases hpos
+  | pinf => exact absurd rfl hinf
+  | fin a => rfl
+
 theorem highestLoop_spec {τ : Type} (f : τ → X Rat) :
-    ∀ (l seen : List τ) (h : Option (τ × X Rat)), HighestOf f seen h →
+    ∀ (l seen : List τ) (h : Option (τ × X Rat)), (∀ t ∈ l, f t ≠ .pinf) → HighestOf f seen h →
       ∃ r, highestLoop (fun t => .ok (f t)) l h = .ok r ∧ HighestOf f (seen ++ l) r := by
   intro l
   induction l with
-  | nil => intro seen h inv; exact ⟨h, rfl, by simpa using inv⟩
+  | nil => intro seen h _ inv; exact ⟨h, rfl, by simpa using inv⟩
   | cons t rest ih =>
-    intro seen h inv
+    intro seen h hfin inv
     simp only [highestLoop, degreeOf, bind, Except.bind]
-    have hnext : HighestOf f (seen ++ [t]) (if better h (f t) then some (t, f t) else h) := by
+    have hft : f t ≠ .pinf := hfin t (by simp)
+    have hnext : HighestOf f (seen ++ [t]) (if better h (f t) then some (t, X.nanToNum01 (f t)) else h) := by
       cases h with
       | none =>
         rw [show better (none : Option (τ × X Rat)) (f t) = X.lt (.fin 0) (f t) from rfl]
@@ -268,7 +277,7 @@ theorem highestLoop_spec {τ : Type} (f : τ → X Rat) :
           · rw [List.mem_singleton.mp h1]; exact hb
         case pos =>
           have hb := hb'
-          rw [if_pos hb']; simp only [HighestOf]
+          rw [if_pos hb', nanToNum01_of_pos _ hb hft]; simp only [HighestOf]
           refine ⟨by simp, trivial, hb, ?_⟩
           intro t' ht'
           rcases List.mem_append.mp ht' with h1 | h1
@@ -291,7 +300,7 @@ theorem highestLoop_spec {τ : Type} (f : τ → X Rat) :
           · rw [List.mem_singleton.mp h1]; exact hb
         case pos =>
           have hb := hb'
-          rw [if_pos hb']; simp only [HighestOf]
+          rw [if_pos hb', nanToNum01_of_pos _ (X.lt_trans' hpos hb) hft]; simp only [HighestOf]
           refine ⟨by simp, trivial, X.lt_trans' hpos hb, ?_⟩
           intro t' ht'
           rcases List.mem_append.mp ht' with h1 | h1
@@ -299,14 +308,23 @@ theorem highestLoop_spec {τ : Type} (f : τ → X Rat) :
             · rfl
             · have := X.lt_trans' hb hc; rw [hmax t' h1] at this; cases this
           · rw [List.mem_singleton.mp h1]; exact X.lt_irrefl' _
-    obtain ⟨r, hr, hinv⟩ := ih (seen ++ [t]) _ hnext
+    obtain ⟨r, hr, hinv⟩ := ih (seen ++ [t]) _ (fun t' ht' => hfin t' (by simp [ht'])) hnext
     exact ⟨r, hr, by simpa using hinv⟩
 
-/-- **`highest_membership`** (membership functions that do not raise): `None` iff no term has a positive degree;
-    otherwise a term of the variable with its degree, which is positive and which no term of the variable exceeds -/
-theorem highestMembership_spec {τ : Type} (f : τ → X Rat) (terms : List τ) :
+/-- **`highest_membership`** (membership functions that do not raise and do not return `+inf`): `None` iff no term has
+    a positive degree; otherwise a term of the variable with its degree, which is positive and which no term of the
+    variable exceeds -/
+theorem highestMembership_spec {τ : Type} (f : τ → X Rat) (terms : List τ) (hfin : ∀ t ∈ terms, f t ≠ .pinf) :
     ∃ r, highestMembership (fun t => .ok (f t)) terms = .ok r ∧ HighestOf f terms r := by
-  obtain ⟨r, h1, h2⟩ := highestLoop_spec f terms [] none (by intro t ht; cases ht)
+  obtain ⟨r, h1, h2⟩ := highestLoop_spec f terms [] none hfin (by intro t ht; cases ht)
   exact ⟨r, h1, by simpa using h2⟩
+
+/-- a membership value of `+inf` is held as 1 (the setter of `Activated.degree`): the later term of degree 5 replaces
+    it, and a single term of degree `+inf` is returned with degree 1 (observed on the implementation:
+    `[Constant(inf), Constant(5.0)]` gives the second term, `[Constant(inf)]` gives degree 1.0) -/
+theorem highestMembership_inf :
+    highestMembership (fun (t : Nat) => .ok (if t = 0 then X.pinf else X.fin 5)) [0, 1] = .ok (some (1, X.fin 5)) ∧
+    highestMembership (fun (_ : Nat) => .ok X.pinf) [0] = .ok (some (0, X.fin 1)) := by
+  constructor <;> decide +kernel
 
 end Op.Infer
